@@ -547,6 +547,24 @@ impl StoreEnv {
             }
             "run_ended" => {
                 let s = get_u64(op, "s").unwrap_or(0) as usize;
+                if get_bool(op, "with_text").unwrap_or(false) {
+                    // the run's session stream (once per session): start, one text delta, end
+                    let sid = self.session_id(s);
+                    let have = crate::runs::frames_of(&self.data, &sid).len();
+                    if have == 0 {
+                        let log = self.reader.as_ref().unwrap();
+                        let mk = |seq: u64, kind: rip_kernel::EventKind| Event {
+                            id: uuid::Uuid::new_v4().to_string(),
+                            session_id: sid.clone(),
+                            timestamp_ms: 1,
+                            seq,
+                            kind,
+                        };
+                        let _ = log.append(&mk(0, rip_kernel::EventKind::SessionStarted { input: "q".into() }));
+                        let _ = log.append(&mk(1, rip_kernel::EventKind::OutputTextDelta { delta: format!("reply-{s}") }));
+                        let _ = log.append(&mk(2, rip_kernel::EventKind::SessionEnded { reason: "completed".into() }));
+                    }
+                }
                 let r = self.store().append_run_ended(
                     &tid,
                     &self.msg_ref(t, op),
